@@ -553,5 +553,22 @@ def run(ctx):
   check_order_and_output(ctx)
   check_decoders(ctx)
   check_decoder_probes(ctx)
+  # parsing a section leaves the decoded JSON untouched (the same section is parsed again for a repeated filter)
+  npm = 0
+  for c_ in [ctx.ix.cls("ttconv.config:ModuleConfiguration")] + ctx.ix.all_subclasses(ctx.ix.cls("ttconv.config:ModuleConfiguration")):
+    for m_ in c_.methods.values():
+      ps_ = set(m_.params) - {"self", "cls"}
+      for n_ in own_nodes(m_.node):
+        tgt_ = None
+        if isinstance(n_, ast.Call) and isinstance(n_.func, ast.Attribute) and n_.func.attr in ("pop", "popitem", "clear", "update", "setdefault", "remove", "append", "extend", "sort") and isinstance(n_.func.value, ast.Name) and n_.func.value.id in ps_:
+          tgt_ = n_.func.value.id
+        if isinstance(n_, (ast.Assign, ast.Delete, ast.AugAssign)):
+          for t_ in (n_.targets if isinstance(n_, (ast.Assign, ast.Delete)) else [n_.target]):
+            if isinstance(t_, ast.Subscript) and isinstance(t_.value, ast.Name) and t_.value.id in ps_:
+              tgt_ = t_.value.id
+        if tgt_:
+          npm += 1
+          ctx.bad("PARAM-pure", f"{m_.qualname}|{short(n_, 50)}", ctx.where(m_.module, n_), f"`{short(n_, 60)}` modifies the caller's `{tgt_}`: the decoded configuration is consumed by the first parse, so a second parse of the same section (a filter named twice) sees different data")
+  ctx.ok("PARAM-pure", "ttconv.config|configuration parsing does not modify its argument", "src/main/python/ttconv/config.py", f"{npm} mutations of parameters")
   lint.unsat_ranges(ctx, [m for m in ctx.ix.modules.values() if m.name.endswith("config") or "filters" in m.name], rule="LINT-c")
   check_determinism(ctx)
